@@ -1,6 +1,7 @@
 //! agg stream (C21): aggregates and grouping through real Cypher queries.
 //!   agg <fn> <v> <v> …      fn ∈ count* count sum avg min max collect countd sumd avgd mind maxd collectd
 //!       `UNWIND $xs AS x RETURN <fn>(x) AS r`                 -> `<type> <payload>` of r
+//!       (+ `@…` temporal oracle tokens for the strings among the values, as in the value stream)
 //!   group <k> <k> …         `UNWIND $xs AS x RETURN x AS k, count(*) AS c`
 //!       -> `<number of result rows>` | sorted `key:count` list
 //!          (`unspec` when the keys contain both +0.0 and -0.0: Eq says equal, Hash differs, HashMap
@@ -51,6 +52,9 @@ fn zero_signs(v: &Value, pos: &mut bool, neg: &mut bool) {
 
 impl State for S {
     fn step(&mut self, ws: &[&str]) -> String {
+        let orc: Vec<&str> = ws.iter().filter(|w| w.starts_with('@')).copied().collect();
+        let ws: Vec<&str> = ws.iter().filter(|w| !w.starts_with('@')).copied().collect();
+        let ws = &ws[..];
         match ws[0] {
             "agg" if ws.len() >= 2 => {
                 let Some((_, text)) = FNS.iter().find(|(n, _)| *n == ws[1]) else { return "bad-op".into() };
@@ -60,6 +64,9 @@ impl State for S {
                         Some(v) => xs.push(v),
                         None => return "bad-op".into(),
                     }
+                }
+                if !vtok::oracle_ok(&xs.iter().collect::<Vec<_>>(), &orc) {
+                    return "bad-oracle".into();
                 }
                 let q = format!("UNWIND $xs AS x RETURN {} AS r", text);
                 match ENG.with(|e| e.run(&q, &[("xs", Value::List(xs))])).and_then(single) {
@@ -110,6 +117,11 @@ fn emit(out: &mut dyn Write, head: &str, xs: &[Value]) {
     for x in xs {
         s.push(' ');
         s.push_str(&vtok::show(x));
+    }
+    // min / max go through order_compare: strings that parse as temporal values need the oracle
+    for o in vtok::oracle(&xs.iter().collect::<Vec<_>>()) {
+        s.push(' ');
+        s.push_str(&o);
     }
     writeln!(out, "{}", s).unwrap();
 }
